@@ -147,7 +147,7 @@ func tokenStart(ss []sym, r rendered, off int) bool {
 				}
 				// a token of the command inside a substitution: after a blank or an operator character, or an
 				// operator or closing character itself
-				if strings.ContainsAny(s.text, "`(") && s.text[rel] != ' ' && (strings.ContainsRune(" `(|;&", rune(s.text[rel-1])) || strings.ContainsRune("|;&)", rune(s.text[rel]))) {
+				if strings.ContainsAny(s.text, "`(") && s.text[rel] != ' ' && (strings.ContainsRune(" `(|;&)", rune(s.text[rel-1])) || strings.ContainsRune("|;&)", rune(s.text[rel]))) {
 					return true
 				}
 			}
@@ -230,6 +230,13 @@ func init() {
 			if err := json.Unmarshal(raw, &c); err != nil {
 				return err
 			}
+			registerDynamicSymbols()
+			if len(c.Syms) == 0 && c.Src != "" {
+				if d := arithBalancedJudge(c.Src, runParse(c.Src)); d != "" {
+					return fmt.Errorf("%s", d)
+				}
+				return nil
+			}
 			ss := syms(c.Syms...)
 			m := gramParse(ss)
 			r := render(ss)
@@ -274,6 +281,7 @@ func init() {
 			if err := json.Unmarshal(raw, &c); err != nil {
 				return err
 			}
+			registerDynamicSymbols()
 			ss := syms(c.Syms...)
 			m := gramParse(ss)
 			r := render(ss)
@@ -469,6 +477,11 @@ func c02Derivations(w *W) {
 		if ml := multiLine(ss, m); len(ml) > 0 {
 			lays = append(lays, ml)
 		}
+		if semiNewlineFamily(name, w.thorough()) {
+			if sn := semiNewline(ss, m); sn != nil {
+				lays = append(lays, sn)
+			}
+		}
 		for li, lay := range lays {
 			m := m
 			if li > 0 {
@@ -644,6 +657,46 @@ func c03Mutations(w *W) {
 			}
 		}
 	}
+	// unquoted arithmetic expansions and commands whose expression holds more ')' than '(': whichever way "$((" /
+	// "((" is read, the operators '(' and ')' of the command line do not balance, so every host sentence is
+	// ill-formed.  (Inside double quotes a ')' after the closing "))" is literal text; and an expression whose
+	// parentheses balance only in total — "1)(" — is delimited by counting and left to the evaluator: neither is
+	// in this family.)
+	arithParenBodies(w.thorough(), func(body string, surplus bool) {
+		if !surplus {
+			return
+		}
+		for _, form := range []string{"$((" + body + "))", "((" + body + "))"} {
+			if _, ok := symTable[form]; !ok {
+				symTable[form] = sym{text: form, kind: kBroken}
+			}
+			hosts := [][]string{{"a", form}, {"a", form, ";", "a"}, {"x=1", form}, {"if", "a", form, ";", "then", "a", ";", "fi"}, {"a", form, "$((1))"}, {"a", "<<E", form}}
+			if strings.HasPrefix(form, "((") {
+				hosts = [][]string{{form}, {"a", ";", form}, {"if", form, ";", "then", "a", ";", "fi"}, {form, "&&", "((1))"}, {"a", "<<E", "|", form}}
+			}
+			for _, t := range hosts {
+				if !w.Mine() {
+					continue
+				}
+				ss := syms(append(append([]string{}, t...), "\n")...)
+				m := gramParse(ss)
+				if m.ok || m.dontcare != "" {
+					continue
+				}
+				r := render(ss)
+				w.Announce(r.src)
+				o := runParse(r.src)
+				w.Count("states", 1)
+				w.Count("evaluations", 1)
+				w.Count("arithmetic_with_surplus_parenthesis", 1)
+				w.Count("traces_validated_against_impl", 1)
+				w.Count("distinct_nontrivial", 1)
+				if cl, d := c03Judge(ss, m, r, o); d != "" {
+					w.Violation(c03Class(cl, ss, r, m, o), symCase{symTexts(ss), r.src}, d)
+				}
+			}
+		}
+	})
 	mutants(w, func(ss []sym) {
 		if lexicallyEntangled(ss) {
 			return
@@ -667,9 +720,98 @@ func c03Mutations(w *W) {
 	})
 }
 
+// arithParenBodies enumerates the arithmetic expression texts of ≤ 5 (thorough 6) characters over
+// {1 ( ) + space}: surplus = more ')' than '('; the others reported are balanced with no prefix going negative.
+func arithParenBodies(thorough bool, f func(body string, surplus bool)) {
+	n := 5
+	if thorough {
+		n = 6
+	}
+	var rec func(cur []byte)
+	rec = func(cur []byte) {
+		if len(cur) > 0 {
+			depth, neg := 0, false
+			for _, c := range cur {
+				switch c {
+				case '(':
+					depth++
+				case ')':
+					depth--
+				}
+				if depth < 0 {
+					neg = true
+				}
+			}
+			switch {
+			case depth < 0:
+				f(string(cur), true)
+			case depth == 0 && !neg && strings.ContainsAny(string(cur), "1"):
+				f(string(cur), false)
+			}
+		}
+		if len(cur) == n {
+			return
+		}
+		for _, c := range []byte("1()+ ") {
+			rec(append(cur, c))
+		}
+	}
+	rec(nil)
+}
+
+func arithBalancedJudge(src string, o parseObs) string {
+	switch {
+	case o.pan != nil:
+		return fmt.Sprintf("ParseCommands(%q) panicked: %v", src, o.pan)
+	case o.err != nil:
+		return fmt.Sprintf("ParseCommands(%q) fails with %v; the parentheses of the arithmetic expression balance", src, o.err)
+	case len(o.cmds) != 1:
+		return fmt.Sprintf("ParseCommands(%q) returns %d commands, expected 1", src, len(o.cmds))
+	}
+	// blanks inside the expression are not part of any word part
+	if p, ok := printNode(o.cmds[0]); !ok || strings.ReplaceAll(p+"\n", " ", "") != strings.ReplaceAll(src, " ", "") {
+		return fmt.Sprintf("ParseCommands(%q): the command prints as %q, the expression text is not kept", src, p)
+	}
+	return ""
+}
+
+// registerDynamicSymbols makes the symbols that are generated at run time (word space WG, arithmetic texts with
+// a surplus parenthesis) known to a replay.
+func registerDynamicSymbols() {
+	generatedWords()
+	arithParenBodies(true, func(body string, surplus bool) {
+		if surplus {
+			for _, form := range []string{"$((" + body + "))", "((" + body + "))"} {
+				if _, ok := symTable[form]; !ok {
+					symTable[form] = sym{text: form, kind: kBroken}
+				}
+			}
+		}
+	})
+}
+
 // c02Mutations: the mutants the grammar still derives are judged like any other accepted sentence.
 func c02Mutations(w *W) {
 	herePairs(w, true)
+	// balanced parentheses inside an arithmetic expansion / command: accepted, the expression text kept as written
+	arithParenBodies(w.thorough(), func(body string, surplus bool) {
+		if surplus || !w.Mine() {
+			return
+		}
+		for _, src := range []string{"a $((" + body + "))\n", "((" + body + "))\n", "a \"$((" + body + "))\" b\n"} {
+			w.Announce(src)
+			o := runParse(src)
+			w.Count("states", 1)
+			w.Count("evaluations", 1)
+			w.Count("arithmetic_with_balanced_parentheses", 1)
+			w.Count("traces_validated_against_impl", 1)
+			w.Count("distinct_nontrivial", 1)
+			d := arithBalancedJudge(src, o)
+			if d != "" {
+				w.Violation("arith-paren", symCase{nil, src}, d)
+			}
+		}
+	})
 	mutants(w, func(ss []sym) {
 		if lexicallyEntangled(ss) {
 			return
